@@ -62,6 +62,42 @@ def templates(budget, depth, blocks):
     return out
 
 
+ALT_USES = ["UG", "UM", "UI", "UX", "UC", "UW", "UD"]
+
+
+def with_alt_uses(tpls, max_items):
+    """every template with at most max_items items that contains the expression-statement use UE, with its LAST such use replaced
+    by each other use position (gate operand, measure operand, indexed target, binary operand, if / while condition, designator)"""
+    def count(seq):
+        return sum(1 + sum(count(b) for b in it[1:]) for it in seq)
+
+    def replace_last(seq, new):
+        seq = list(seq)
+        for i in range(len(seq) - 1, -1, -1):
+            it = seq[i]
+            if it == ("UE",):
+                seq[i] = (new,)
+                return tuple(seq), True
+            if len(it) > 1:
+                bodies = list(it[1:])
+                for j in range(len(bodies) - 1, -1, -1):
+                    nb, ok = replace_last(bodies[j], new)
+                    if ok:
+                        bodies[j] = nb
+                        seq[i] = (it[0],) + tuple(bodies)
+                        return tuple(seq), True
+        return tuple(seq), False
+    out = []
+    for t in tpls:
+        if count(t) > max_items:
+            continue
+        for a in ALT_USES:
+            nt, ok = replace_last(t, a)
+            if ok:
+                out.append(nt)
+    return out
+
+
 def tname(seq):
     def one(it):
         if len(it) == 1:
@@ -116,6 +152,32 @@ class Prog:
         elif k == "UE":
             s = self.name(); self.t("SEMICOLON", ";")
             self.events.append(("use", s, tuple(chain), "expr", path, start))
+        elif k == "UG":       # gate operand
+            for w_, kn_ in (("U", "IDENT"), ("(", "L_PAREN"), ("0", "INT_NUMBER"), (",", "COMMA"), ("0", "INT_NUMBER"), (",", "COMMA"), ("0", "INT_NUMBER"), (")", "R_PAREN")):
+                self.t(kn_, w_)
+            s = self.name(); self.t("SEMICOLON", ";")
+            self.events.append(("use", s, tuple(chain), "gate-operand", path, start))
+        elif k == "UM":       # measure operand
+            self.t("MEASURE_KW", "measure"); s = self.name(); self.t("SEMICOLON", ";")
+            self.events.append(("use", s, tuple(chain), "measure-operand", path, start))
+        elif k == "UI":       # indexed assignment target
+            s = self.name(); self.t("L_BRACK", "["); self.t("INT_NUMBER", "0"); self.t("R_BRACK", "]"); self.t("EQ", "="); self.t("INT_NUMBER", "1"); self.t("SEMICOLON", ";")
+            self.events.append(("use", s, tuple(chain), "indexed-lvalue", path, start))
+        elif k == "UX":       # operand of a binary expression
+            self.t("INT_NUMBER", "1"); self.t("PLUS", "+"); s = self.name(); self.t("SEMICOLON", ";")
+            self.events.append(("use", s, tuple(chain), "operand", path, start))
+        elif k == "UC":       # if condition (evaluated in the enclosing scope)
+            self.t("IF_KW", "if"); self.t("L_PAREN", "("); s = self.name(); self.t("R_PAREN", ")")
+            self.events.append(("use", s, tuple(chain), "condition", path, start))
+            self.new_scope(); self.t("L_CURLY", "{"); self.t("R_CURLY", "}")
+        elif k == "UW":       # while condition
+            self.t("WHILE_KW", "while"); self.t("L_PAREN", "("); s = self.name(); self.t("R_PAREN", ")")
+            self.events.append(("use", s, tuple(chain), "loop-condition", path, start))
+            self.new_scope(); self.t("L_CURLY", "{"); self.t("R_CURLY", "}")
+        elif k == "UD":       # width designator of a declaration
+            self.t("INT_TY", "int"); self.t("L_BRACK", "["); u = self.name(); self.t("R_BRACK", "]"); s = self.name(); self.t("SEMICOLON", ";")
+            self.events.append(("use", u, tuple(chain), "designator", path, start))
+            self.events.append(("bind", s, chain[-1], "decl", path, start))
         elif k in ("IF", "IFE"):
             self.t("IF_KW", "if"); self.t("L_PAREN", "("); self.t("TRUE_KW", "true"); self.t("R_PAREN", ")")
             self.block(it[1], chain + [self.new_scope()], path + ("then",))
@@ -257,6 +319,8 @@ class ScopeHarness:
                 raise Violation(f"the graph has no node for the {ev[3]} of name slot {ev[1]} ({tname(self.seq)})")
             g = got[key]
             exp = orc.expect[ei]
+            if g[0] == "skip":
+                continue
             what = f"{ev[3]} `{self.slot_text(ev[1])}` at {ev[4]}"
             if ev[0] == "bind":
                 if g[0] == "ok":
@@ -284,6 +348,16 @@ class ScopeHarness:
         used = set()
         for ei, ev in enumerate(P.events):
             g = got[(ev[0], ev[1])]
+            if g[0] == "skip":
+                # the look-up result of a designator is not stored in the graph; its UndefVarError is the observable
+                exp = orc.expect[ei]
+                tokpos = self.starts[P.slots[ev[1]]]
+                cands = [k for k in errpos if k[0] == "UndefVarError" and k[1] <= tokpos < k[2] and k not in used]
+                n = errpos[cands[0]] if cands else 0
+                if cands:
+                    used.add(cands[0])
+                ex.prove(z3.BoolVal(n == 1) == z3.Not(exp[1]), f"{ev[3]} `{self.slot_text(ev[1])}` at {ev[4]}: UndefVarError reported {n} times, which is wrong for the declarations visible there")
+                continue
             tokpos = self.starts[P.slots[ev[1]]]
             kind = "RedeclarationError" if ev[0] == "bind" else "UndefVarError"
             # the diagnostic is attached to the identifier or to a node that starts with / contains it
@@ -339,7 +413,8 @@ class ScopeHarness:
 
     def walk_item(self, it, st, path, got):
         k = it[0]
-        want = {"D": "DeclareClassical", "DI": "DeclareClassical", "UL": "Assignment", "UE": "ExprStmt", "IF": "If", "IFE": "If", "WH": "While", "FOR": "ForStmt",
+        want = {"UG": "GateCall", "UM": "ExprStmt", "UI": "Assignment", "UX": "ExprStmt", "UC": "If", "UW": "While", "UD": "DeclareClassical",
+                "D": "DeclareClassical", "DI": "DeclareClassical", "UL": "Assignment", "UE": "ExprStmt", "IF": "If", "IFE": "If", "WH": "While", "FOR": "ForStmt",
                 "GATE": "GateDefinition", "DEF": "DefStmt", "SW": "SwitchCaseStmt"}[k]
         if st.v != want:
             raise Violation(f"statement at {path} is {st.v} in the graph, {want} in the source")
@@ -357,6 +432,45 @@ class ScopeHarness:
             if e.v != "Identifier":
                 raise Violation(f"initializer at {path} is {e.v}")
             got[("use", self.slot_of(path, "init"))] = res_of(e[0]) + (None, None)
+        elif k in ("UG", "UM", "UI", "UX", "UC", "UW", "UD"):
+            def unwrap(te):
+                e = te["expression"]
+                while e.v == "Cast":
+                    e = e[0]["operand"]["expression"]
+                return e
+
+            def ident(e, what):
+                if e.v == "GateOperand":
+                    e = e[0]
+                if e.v != "Identifier":
+                    raise Violation(f"{what} at {path} is {e.v} in the graph")
+                return res_of(e[0]) + (None, None)
+            if k == "UG":
+                if len(n["qubits"]) != 1:
+                    raise Violation(f"gate call at {path} has {len(n['qubits'])} operands")
+                got[("use", self.slot_of(path, "gate-operand"))] = ident(unwrap(n["qubits"][0]), "gate operand")
+            elif k == "UM":
+                e = unwrap(n)
+                if e.v != "MeasureExpression":
+                    raise Violation(f"measure statement at {path} is {e.v}")
+                got[("use", self.slot_of(path, "measure-operand"))] = ident(unwrap(e[0]["operand"]), "measure operand")
+            elif k == "UI":
+                lv = n["lvalue"]
+                if lv.v != "IndexedIdentifier":
+                    raise Violation(f"indexed assignment target at {path} is {lv.v}")
+                got[("use", self.slot_of(path, "indexed-lvalue"))] = res_of(lv[0]["identifier"]) + (None, None)
+            elif k == "UX":
+                e = unwrap(n)
+                if e.v != "BinaryExpr":
+                    raise Violation(f"binary expression statement at {path} is {e.v}")
+                got[("use", self.slot_of(path, "operand"))] = ident(unwrap(e[0]["right"]), "right operand")
+            elif k == "UC":
+                got[("use", self.slot_of(path, "condition"))] = ident(unwrap(n["condition"]), "if condition")
+            elif k == "UW":
+                got[("use", self.slot_of(path, "loop-condition"))] = ident(unwrap(n["condition"]), "while condition")
+            elif k == "UD":
+                got[("bind", self.slot_of(path, "decl"))] = res_of(n["name"])
+                got[("use", self.slot_of(path, "designator"))] = ("skip",)
         elif k == "UL":
             lv = n["lvalue"]
             if lv.v != "Identifier":
@@ -465,6 +579,7 @@ def run(ctx):
     pool = os.environ.get("VERIF_C07_POOL", "abU" if ctx.quick() else "abUπ")
     blocks = list(BLOCKS)
     tasks = templates(budget, depth, blocks)
+    tasks += with_alt_uses(tasks, 2 if ctx.quick() else 3)
     if os.environ.get("VERIF_C07_ONLY"):
         tasks = [t for t in tasks if tname(t) == os.environ["VERIF_C07_ONLY"]]
     ctx.log(f"{len(tasks)} scope templates (<= {budget} items, nesting <= {depth}), names from `{pool}`")
@@ -527,7 +642,7 @@ def run(ctx):
     res.bounds.update({"items_per_program": budget, "nesting": depth, "name_pool": pool, "templates": len(tasks)})
     res.stubs += ["rowan tree model", "hashbrown map model (HashMap contract)", "string models"]
     res.assumptions += ["a gate / subroutine name becomes visible after its definition (C09: bound after the body), a for-loop variable shares the scope of the loop body"]
-    res.outside_claim += ["names longer than one character (only single-character built-ins U and π collide)", "programs with more items / deeper nesting", "uses in positions other than assignment target and expression statement (C13 covers gate operands)"]
+    res.outside_claim += ["names longer than one character (only single-character built-ins U and π collide)", "programs with more items / deeper nesting", "use positions beyond: assignment target, expression statement, initializer, gate / measure operand, indexed target, binary operand, if / while condition, width designator"]
     res.exhaustive = not res.inconclusive
     return res
 
